@@ -2,52 +2,42 @@
 static int bad; static void fail(const char *what){ printf("MISMATCH %s\n", what); bad++; }
 extern int lfunc_0(void); extern void *addr_lfunc_0(void); extern void *l1_addr_lfunc_0(void); int (*volatile fp_lfunc_0)(void) = lfunc_0;
 extern int ldata_1[]; extern const void *addr_ldata_1(void); extern const void *l1_addr_ldata_1(void); extern int read_ldata_1(void); extern int l1_read_ldata_1(void); int *volatile dp_ldata_1 = ldata_1;
-extern int ldata_bss_2[]; extern const void *addr_ldata_bss_2(void); extern const void *l1_addr_ldata_bss_2(void); extern int read_ldata_bss_2(void); extern int l1_read_ldata_bss_2(void); int *volatile dp_ldata_bss_2 = ldata_bss_2;
-static int impl_eifunc_3(void){ return 11; } static void *res_eifunc_3(void){ return (void*)impl_eifunc_3; } int eifunc_3(void) __attribute__((ifunc("res_eifunc_3"))); extern void *l1_addr_eifunc_3(void); extern int l1_call_eifunc_3(void); int (*volatile fp_eifunc_3)(void) = eifunc_3;
-extern int l2func_4(void); extern void *addr_l2func_4(void); extern void *l1_addr_l2func_4(void); int (*volatile fp_l2func_4)(void) = l2func_4;
-int efunc_5(void){ return 192; } extern void *l1_addr_efunc_5(void); extern int l1_call_efunc_5(void);
-static int impl_eifunc_6(void){ return 88; } static void *res_eifunc_6(void){ return (void*)impl_eifunc_6; } int eifunc_6(void) __attribute__((ifunc("res_eifunc_6"))); extern void *l1_addr_eifunc_6(void); extern int l1_call_eifunc_6(void); int (*volatile fp_eifunc_6)(void) = eifunc_6;
-extern int lalias_sw_7; extern void *addr_lalias_sw_7(void); extern void *waddr_lalias_sw_7(void); extern int read_lalias_sw_7(void); extern void write_lalias_sw_7(int);
-extern int t_lalias_ts_8[]; extern void *addr_lalias_ts_8(void); extern void *waddr_lalias_ts_8(void); extern int read_lalias_ts_8(void); extern void write_lalias_ts_8(int);
+int edata_2[16] = { 89 }; extern void *l1_addr_edata_2(void); extern int l1_read_edata_2(void);
+extern const int ldata_ro_3[]; extern const void *addr_ldata_ro_3(void); extern const void *l1_addr_ldata_ro_3(void); extern int read_ldata_ro_3(void); extern int l1_read_ldata_ro_3(void); const int *volatile dp_ldata_ro_3 = ldata_ro_3;
+int efunc_4(void){ return 189; } extern void *l1_addr_efunc_4(void); extern int l1_call_efunc_4(void);
+static int impl_eifunc_5(void){ return 83; } static void *res_eifunc_5(void){ return (void*)impl_eifunc_5; } int eifunc_5(void) __attribute__((ifunc("res_eifunc_5"))); extern void *l1_addr_eifunc_5(void); extern int l1_call_eifunc_5(void); int (*volatile fp_eifunc_5)(void) = eifunc_5;
+extern int lalias_sw_6[]; extern void *addr_lalias_sw_6(void); extern void *waddr_lalias_sw_6(void); extern int read_lalias_sw_6(void); extern void write_lalias_sw_6(int);
+extern int t_lalias_ts_7; extern void *addr_lalias_ts_7(void); extern void *waddr_lalias_ts_7(void); extern int read_lalias_ts_7(void); extern void write_lalias_ts_7(int);
 int main(void){
     if ((void*)lfunc_0 != addr_lfunc_0()) fail("lfunc_0: exe vs defining library");
     if ((void*)lfunc_0 != l1_addr_lfunc_0()) fail("lfunc_0: exe vs lib1");
     if ((void*)fp_lfunc_0 != (void*)lfunc_0) fail("lfunc_0: data pointer vs code reference in exe");
-    if (fp_lfunc_0() != 12 || lfunc_0() != 12) fail("lfunc_0: call result");
+    if (fp_lfunc_0() != 194 || lfunc_0() != 194) fail("lfunc_0: call result");
     if ((const void*)ldata_1 != addr_ldata_1()) fail("ldata_1: exe vs defining library");
     if ((const void*)ldata_1 != l1_addr_ldata_1()) fail("ldata_1: exe vs lib1");
     if ((const void*)dp_ldata_1 != (const void*)ldata_1) fail("ldata_1: data pointer vs code reference in exe");
-    if (ldata_1[0] != 127 || read_ldata_1() != 127) fail("ldata_1: initial value");
-    ldata_1[0] = 1127; if (read_ldata_1() != 1127 || l1_read_ldata_1() != 1127) fail("ldata_1: write through exe not seen by library");
-    if ((const void*)ldata_bss_2 != addr_ldata_bss_2()) fail("ldata_bss_2: exe vs defining library");
-    if ((const void*)ldata_bss_2 != l1_addr_ldata_bss_2()) fail("ldata_bss_2: exe vs lib1");
-    if ((const void*)dp_ldata_bss_2 != (const void*)ldata_bss_2) fail("ldata_bss_2: data pointer vs code reference in exe");
-    if (ldata_bss_2[0] != 0 || read_ldata_bss_2() != 0) fail("ldata_bss_2: initial value");
-    ldata_bss_2[0] = 1155; if (read_ldata_bss_2() != 1155 || l1_read_ldata_bss_2() != 1155) fail("ldata_bss_2: write through exe not seen by library");
-    if ((void*)fp_eifunc_3 != (void*)eifunc_3) fail("eifunc_3: ifunc address in data vs code in exe");
+    if (ldata_1[0] != 83 || read_ldata_1() != 83) fail("ldata_1: initial value");
+    ldata_1[0] = 1083; if (read_ldata_1() != 1083 || l1_read_ldata_1() != 1083) fail("ldata_1: write through exe not seen by library");
+    if ((void*)edata_2 != l1_addr_edata_2()) fail("edata_2: exe data seen from lib1");
+    edata_2[0] = 94; if (l1_read_edata_2() != 94) fail("edata_2: write in exe not seen by lib1");
+    if ((const void*)ldata_ro_3 != addr_ldata_ro_3()) fail("ldata_ro_3: exe vs defining library");
+    if ((const void*)ldata_ro_3 != l1_addr_ldata_ro_3()) fail("ldata_ro_3: exe vs lib1");
+    if ((const void*)dp_ldata_ro_3 != (const void*)ldata_ro_3) fail("ldata_ro_3: data pointer vs code reference in exe");
+    if (ldata_ro_3[0] != 173 || read_ldata_ro_3() != 173) fail("ldata_ro_3: initial value");
+    if ((void*)efunc_4 != l1_addr_efunc_4()) fail("efunc_4: exe function seen from lib1");
+    if (l1_call_efunc_4() != 189) fail("efunc_4: call from lib1");
+    if ((void*)fp_eifunc_5 != (void*)eifunc_5) fail("eifunc_5: ifunc address in data vs code in exe");
     
 #ifdef EIFUNC_FROM_LIB
-    if ((void*)eifunc_3 != l1_addr_eifunc_3()) fail("eifunc_3: exe ifunc address seen from lib1"); if (l1_call_eifunc_3() != 11) fail("eifunc_3: ifunc call from lib1");
+    if ((void*)eifunc_5 != l1_addr_eifunc_5()) fail("eifunc_5: exe ifunc address seen from lib1"); if (l1_call_eifunc_5() != 83) fail("eifunc_5: ifunc call from lib1");
 #endif
-    if (eifunc_3() != 11 || fp_eifunc_3() != 11) fail("eifunc_3: ifunc call result");
-    if ((void*)l2func_4 != addr_l2func_4()) fail("l2func_4: exe vs defining library");
-    if ((void*)l2func_4 != l1_addr_l2func_4()) fail("l2func_4: exe vs lib1");
-    if ((void*)fp_l2func_4 != (void*)l2func_4) fail("l2func_4: data pointer vs code reference in exe");
-    if (fp_l2func_4() != 124 || l2func_4() != 124) fail("l2func_4: call result");
-    if ((void*)efunc_5 != l1_addr_efunc_5()) fail("efunc_5: exe function seen from lib1");
-    if (l1_call_efunc_5() != 192) fail("efunc_5: call from lib1");
-    if ((void*)fp_eifunc_6 != (void*)eifunc_6) fail("eifunc_6: ifunc address in data vs code in exe");
-    
-#ifdef EIFUNC_FROM_LIB
-    if ((void*)eifunc_6 != l1_addr_eifunc_6()) fail("eifunc_6: exe ifunc address seen from lib1"); if (l1_call_eifunc_6() != 88) fail("eifunc_6: ifunc call from lib1");
-#endif
-    if (eifunc_6() != 88 || fp_eifunc_6() != 88) fail("eifunc_6: ifunc call result");
-    if ((void*)&lalias_sw_7 != addr_lalias_sw_7() || (void*)&lalias_sw_7 != waddr_lalias_sw_7()) fail("lalias_sw_7: symbol in exe vs its alias used by the library");
-    if (lalias_sw_7 != 68 || read_lalias_sw_7() != 68) fail("lalias_sw_7: initial value");
-    lalias_sw_7 = 1068; if (read_lalias_sw_7() != 1068) fail("lalias_sw_7: write in exe not seen by the library through the alias");
-    write_lalias_sw_7(75); if (lalias_sw_7 != 75) fail("lalias_sw_7: write by the library through the alias not seen in exe");
-    if ((void*)t_lalias_ts_8 != addr_lalias_ts_8() || (void*)t_lalias_ts_8 != waddr_lalias_ts_8()) fail("lalias_ts_8: symbol in exe vs its alias used by the library");
-    if (t_lalias_ts_8[0] != 0 || read_lalias_ts_8() != 0) fail("lalias_ts_8: initial value");
-    t_lalias_ts_8[0] = 1079; if (read_lalias_ts_8() != 1079) fail("lalias_ts_8: write in exe not seen by the library through the alias");
-    write_lalias_ts_8(86); if (t_lalias_ts_8[0] != 86) fail("lalias_ts_8: write by the library through the alias not seen in exe");
+    if (eifunc_5() != 83 || fp_eifunc_5() != 83) fail("eifunc_5: ifunc call result");
+    if ((void*)lalias_sw_6 != addr_lalias_sw_6() || (void*)lalias_sw_6 != waddr_lalias_sw_6()) fail("lalias_sw_6: symbol in exe vs its alias used by the library");
+    if (lalias_sw_6[0] != 0 || read_lalias_sw_6() != 0) fail("lalias_sw_6: initial value");
+    lalias_sw_6[0] = 1113; if (read_lalias_sw_6() != 1113) fail("lalias_sw_6: write in exe not seen by the library through the alias");
+    write_lalias_sw_6(120); if (lalias_sw_6[0] != 120) fail("lalias_sw_6: write by the library through the alias not seen in exe");
+    if ((void*)&t_lalias_ts_7 != addr_lalias_ts_7() || (void*)&t_lalias_ts_7 != waddr_lalias_ts_7()) fail("lalias_ts_7: symbol in exe vs its alias used by the library");
+    if (t_lalias_ts_7 != 66 || read_lalias_ts_7() != 66) fail("lalias_ts_7: initial value");
+    t_lalias_ts_7 = 1066; if (read_lalias_ts_7() != 1066) fail("lalias_ts_7: write in exe not seen by the library through the alias");
+    write_lalias_ts_7(73); if (t_lalias_ts_7 != 73) fail("lalias_ts_7: write by the library through the alias not seen in exe");
     if (!bad) printf("OK\n"); return bad ? 1 : 0; }
